@@ -911,8 +911,10 @@ class BlockBase(Base):
                 and hasattr(start_stmt, "get_name")
             ):
                 if end_stmt.get_name() is not None:
+                    start_name = start_stmt.get_name()
                     if (
-                        start_stmt.get_name().string.lower()
+                        start_name is None
+                        or start_name.string.lower()
                         != end_stmt.get_name().string.lower()
                     ):
                         end_stmt.item.reader.error(
